@@ -24,7 +24,7 @@ ASSUME = [
     "schemas are well formed (wf_schemab): table, column and constraint/index names unique in their scope, constraints over "
     "existing columns, primary-key columns NOT NULL; additionally for the tie: no two constraints of a table over the same column set",
     "universe: tables, columns (type family + args, nullability, pk flag, server default), named unique constraints, named "
-    "plain-column indexes, named foreign keys without options; CHECKs, comments, unnamed constraints, expression indexes, "
+    "plain-column indexes, named foreign keys with onupdate / ondelete / deferrable / initially options in any casing; CHECKs, comments, unnamed constraints, expression indexes, "
     "non-default schemas are outside",
     "server defaults of the class dflt_ok (no quote, double quote, parenthesis or newline inside a Python-string default or inside a "
     "text() expression / its single pair of quotes or parentheses; Python strings non-empty): outside it the property is REFUTED "
@@ -34,7 +34,7 @@ ASSUME = [
 RULE = ("ALL 380 ordered pairs of distinct catalogue types on one indexed column, then seeded random schema pairs: A = 1-4 tables (pk "
         "column + 0-5 columns over a 20-entry type catalogue, ~35% with a server default from a 19-entry catalogue of Python-string and "
         "text() defaults; 0-3 named unique constraints / indexes; 0-2 named foreign keys, single- or two-column, to a table of lower or "
-        "equal name incl. self-reference), B = A after 0-6 random changes from 18 kinds (tables/columns added or dropped, nullability, "
+        "equal name incl. self-reference, ~45% with ON UPDATE / ON DELETE / DEFERRABLE / INITIALLY options in upper, lower and mixed case), B = A after 0-6 random changes from 18 kinds (tables/columns added or dropped, nullability, "
         "type family, type arguments, server default added/removed/changed, foreign key added/dropped/changed, constraint/index added, "
         "dropped, columns changed, unique flag flipped, kind swapped, renamed), pairs violating 'no dropped table still referenced' "
         "re-drawn; each pair is run under the 4 compare_type x compare_server_default settings, each with render_as_batch False and True "
@@ -53,7 +53,7 @@ LEVEL_TEXT = ("Machine-checked theorems over all well-formed schemas of the mode
               "full-strength statements over all server defaults are refuted with vm_compute witnesses (string defaults such as '(a)'). The model (comparators, reflection, DDL meaning) is compared exactly "
               "with the real compare/render/execute/reflect pipeline on SQLite on every run.")
 LEVEL_NOTE = ("Partial: closed type catalogue, SQLite only, server defaults restricted to dflt_ok (outside: known finding), foreign keys "
-              "without options, no expression indexes / unnamed constraints / CHECKs; "
+              "named (options modelled), no expression indexes / unnamed constraints / CHECKs; "
               "reflection and DDL meaning are modelled tables validated by correspondence, not verified code.")
 
 
